@@ -8,11 +8,12 @@ import Driver.OpsByteClass
 import Driver.OpsIntCodec
 import Driver.OpsPath
 import Driver.OpsFs
+import Driver.OpsArgs
 
 open Fh Fh.Driver
 
 def handlers : List (String → List Bytes → Option String) :=
-  [opsByteClass, opsIntCodec, opsPath, opsFs]
+  [opsByteClass, opsIntCodec, opsPath, opsFs, opsArgs]
 
 def dispatch (line : String) : String :=
   match (line.splitOn " ").filter (· ≠ "") with
